@@ -78,7 +78,7 @@ def _walk_types(T):
         elif tag in ("utuple", "ustar"):
             for e in T[1] + [T[2]] + T[3]:
                 yield from _walk_types(e)
-        elif tag in ("newtype", "fwd", "tvarc", "tvarb", "stype"):
+        elif tag in ("newtype", "fwd", "tvarc", "tvarb", "stype", "alias695"):
             yield from _walk_types(T[2])
         elif tag in ("enum", "flag", "literal", "text"):
             return
@@ -158,6 +158,15 @@ def _union_misdispatch(T, v, out):
         _union_misdispatch(T[1], v, out)
 
 
+def _none_t(x):
+    """the type term means NoneType (seen through NewType / PEP 695 alias / Final / Annotated wrappers)"""
+    while isinstance(x, list) and x and x[0] in ("newtype", "alias695"):
+        x = x[2]
+    while isinstance(x, list) and x and x[0] in ("final", "annotated"):
+        x = x[1]
+    return x == ["none"]
+
+
 def features(rec) -> list:
     out = set()
     T = rec.get("T")
@@ -166,7 +175,7 @@ def features(rec) -> list:
     subs = list(_walk_types(T))
     for t in subs:
         out.add("T:" + t[0])
-        if t[0] == "tdict" and any(f[1] == ["none"] and f[2] for f in t[2]):
+        if t[0] == "tdict" and any(_none_t(f[1]) and f[2] for f in t[2]):
             out.add("tdict-none-required")
         if t[0] in ("dict", "odict", "ddict", "mapping", "mmapping", "mproxy", "chainmap", "counter"):
             k = t[1]
@@ -180,11 +189,11 @@ def features(rec) -> list:
             out.add("union-none-3plus")
         if t[0] == "opt" and t[1][0] == "union" and len(t[1][1]) >= 2:
             out.add("union-none-3plus")          # Optional[Union[A, B]] IS Union[A, B, None]
-        if t[0] in ("tuple",) and ["none"] in t[1]:
+        if t[0] in ("tuple",) and any(_none_t(e) for e in t[1]):
             out.add("none-typed-element")
-        if t[0] in ("utuple", "ustar") and (["none"] in t[1] or ["none"] in t[3] or t[2] == ["none"]):
+        if t[0] in ("utuple", "ustar") and (any(_none_t(e) for e in t[1] + t[3]) or _none_t(t[2])):
             out.add("none-typed-element")
-        if t[0] in ("ntuple", "tdict") and any(f[1] == ["none"] for f in t[2]):
+        if t[0] in ("ntuple", "tdict") and any(_none_t(f[1]) for f in t[2]):
             out.add("none-typed-element")
         if t[0] == "union":
             conts = [m for m in t[1] if m[0] not in ("int", "float", "bool", "str", "none")]
